@@ -6,7 +6,7 @@
    history es, so quantifying over es quantifies over all orders of these events. *)
 From Coq Require Import String.
 From PDV Require Import lib.Base gen.Gen_C08 gen.Gen_C09 model.C08_Steps model.C08_Builder model.C09_OpCtl
-     proof.C08_BuilderProof proof.C09_StatusProof proof.C09_CtlProof proof.C09_LeftProof proof.C08_ListFacts proof.C09_CountProof proof.C09_StaleProof
+     proof.C08_BuilderProof proof.C09_StatusProof proof.C09_CtlProof proof.C09_LeftProof proof.C08_ListFacts proof.C09_CountProof proof.C09_StaleProof proof.C09_OwnGeneral
      proof.C09_OwnProof proof.C09_Skel.
 Local Open Scope Z_scope.
 
@@ -195,11 +195,74 @@ Proof.
   apply (F rm_ctl 1 1 (Opr 1 1 6 1 [rm_step] 0 STARTED 1 false 1 false false) rm_region rm_step); try reflexivity; try exact H4; try exact H1.
 Qed.
 
-(* ---- not yet proved, visible and listed under "todo" in checks/C09.json ---- *)
-(* own steps, any number of stores, outside the refuted class *)
-Definition C09_own_steps_never_stale_general_todo : Prop :=
+(* RemoveOperator cancels the operator and then buries it; buryOperator cancels a non-ended operator itself: the two
+   are the same state transformer (so dropping either Cancel alone is not observable) *)
+Theorem C09_cancel_before_bury_redundant : forall c id, bury (cancel c id) id = bury c id.
+Proof. exact cancel_before_bury_redundant. Qed.
+
+(* ---- own_steps_never_stale, in general: ANY plan the C08 checker accepts, ANY region with one peer per store. Along
+        its execution by the stores (finished steps are passed over) every heartbeat sees: the current step's CheckSafety
+        holds and conf_ver(region) - conf_ver(operator) <= Operator.ConfVerChanged, i.e. checkStaleOperator keeps the operator.
+        Hypothesis (necessary, witness below): no step lowers what an EARLIER step counts in ConfVerChanged
+        (monotone_from; applied steps name non-zero peer ids and, for joint steps, at least one peer).
+        Core lemma: an applied step raises conf_ver by exactly its nominal amount and counts exactly that afterwards. ---- *)
+Theorem C09_step_accounting :
+  forall r s c r', nodup_stores (peers r) = true -> nodup_stores (peers r') = true -> wf_step s = true ->
+    exec_step r s = RDone c r' -> is_finish r' s = true ->
+    conf_ver r' = conf_ver r + nominal s /\ conf_ver_changed r' s = nominal s.
+Proof.
+  intros r s c r' H1 H2. apply step_accounting; apply nodup_stores_ND; assumption.
+Qed.
+
+Theorem C09_own_steps_never_stale :
+  forall g r0 ss,
+    nodup_stores (peers r0) = true ->
+    plan_ok g r0 ss = true ->
+    monotone_from [] r0 ss = true ->
+    heartbeats_fine (conf_ver r0) [] r0 ss = true.
+Proof.
+  intros g r0 ss Hnd Hok Hm. apply (heartbeats_fine_general g); auto.
+  - unfold plan_ok in Hok. destruct (plan_check g r0 ss); [discriminate|reflexivity].
+  - unfold cvc_sum. cbn. lia.
+Qed.
+
+(* what "heartbeats_fine" means for the controller: with the current step safe and conf_ver not ahead of
+   Operator.ConfVerChanged, checkStaleOperator does nothing *)
+Theorem C09_stale_test_keeps_operator :
+  forall c o s r, check_safety r s = None -> 0 <= conf_ver r - o_cv o -> conf_ver r - o_cv o <= op_conf_ver_changed o r ->
+    check_stale c o s r = (c, false).
+Proof. exact check_stale_keeps. Qed.
+
+Theorem C09_op_conf_ver_changed_is_sum :
+  forall o r (done : list step) s rest, o_steps o = (done ++ s :: rest)%list -> o_cur o = length done ->
+    op_conf_ver_changed o r = cvc_sum r (done ++ [s])%list.
+Proof. exact op_cvc_is_sum. Qed.
+
+(* the builder's plans satisfy the hypothesis (bounded: exhaustive for <= 3 stores; together with
+   C09_own_steps_never_stale_bounded, which runs the whole controller + store loop on the same domain) *)
+Theorem C09_builder_plans_monotone_bounded :
+  forall n, (1 <= n <= 3)%nat ->
+  forall ov ol tv tl lok m force,
+    In ov (vectors role_opts n) -> In ol (voters_of (origin_of ov)) ->
+    In tv (vectors role_opts n) -> In tl (0 :: voters_of (target_of tv)) ->
+    In lok (vectors [true; false] n) -> In m modes ->
+  forall ss kl kr,
+    build (mk_input n ov ol tv tl lok m force) = Built ss kl kr ->
+    monotone_from [] (i_region (mk_input n ov ol tv tl lok m force)) ss = true.
+Proof. exact builder_plans_monotone_bounded_pf. Qed.
+
+(* the hypothesis is needed, also when no peer is re-added under its old id: a plan that undoes its own step
+   ([add learner 44 on store 4; remove it again; transfer leader]) is accepted by the C08 checker and cancelled by the
+   controller on its own steps - the AddLearner no longer counts once the peer is gone *)
+Definition C09_own_steps_never_stale_without_monotonicity : Prop :=
   forall r0 g ss, nodup_stores (peers r0) = true -> plan_ok g r0 ss = true -> readded_same_id ss = false ->
                   plan_runs_ok r0 ss = true.
+
+Theorem C09_own_steps_never_stale_needs_monotonicity : ~ C09_own_steps_never_stale_without_monotonicity.
+Proof.
+  intros F. destruct undo_plan_facts as (H1 & H2 & H3 & _).
+  specialize (F undo_region undo_goal undo_plan eq_refl H1 H2). rewrite H3 in F. discriminate F.
+Qed.
 
 (* non-vacuity: a joint plan runs to SUCCESS through the controller; a higher-priority operator replaces a running one *)
 Example C09_nonvacuous :
@@ -235,3 +298,10 @@ Print Assumptions C09_conf_ver_changed_bound.
 Print Assumptions C09_foreign_change_cancels_core.
 Print Assumptions C09_foreign_change_cancels.
 Print Assumptions C09_foreign_change_cancels_needs_matching_remove_id.
+Print Assumptions C09_cancel_before_bury_redundant.
+Print Assumptions C09_step_accounting.
+Print Assumptions C09_own_steps_never_stale.
+Print Assumptions C09_stale_test_keeps_operator.
+Print Assumptions C09_op_conf_ver_changed_is_sum.
+Print Assumptions C09_builder_plans_monotone_bounded.
+Print Assumptions C09_own_steps_never_stale_needs_monotonicity.
